@@ -50,6 +50,14 @@ pub fn run(ctx: &mut Ctx) {
         }
         // the universe may already contain hasRecipient-looking assertions; start clean
         let e = strip_recipients(&e);
+        // a quarter of the envelopes already have obscured parts below the subject level
+        let e = if case % 4 == 0 {
+            let k0 = fresh_key(&mut rng);
+            let ob = gen::obscure_random(&e, &mut rng, 2, &k0);
+            if ob.is_subject_encrypted() || ob.is_subject_elided() { e } else { ctx.count("inputs_with_obscured_parts"); ob }
+        } else {
+            e
+        };
         let t = tree_of(&e);
         ctx.nontrivial(t.shape_hash());
         let n = rng.range(1, 6);
@@ -65,7 +73,7 @@ pub fn run(ctx: &mut Ctx) {
         // route A: encrypt_subject_to_recipients
         let encs: Vec<&dyn Encrypter> = listed.iter().map(|k| &k.pk as &dyn Encrypter).collect();
         ctx.eval();
-        let x = match trap::guard(|| e.encrypt_subject_to_recipients(&encs)) {
+        let x = match trap::guard(|| if encs.len() == 1 && case % 2 == 0 { e.encrypt_subject_to_recipient(encs[0]) } else { e.encrypt_subject_to_recipients(&encs) }) {
             Ok(Ok(x)) => x,
             Ok(Err(err)) => {
                 ctx.violation("encrypt_subject_to_recipients/err", &format!("{}", err), replay());
@@ -96,7 +104,7 @@ pub fn run(ctx: &mut Ctx) {
             ctx.count(&format!("scheme_{}", k.scheme));
             match trap::guard(|| x.decrypt_subject_to_recipient(&k.sk)) {
                 Ok(Ok(d)) => {
-                    if !d.subject().is_identical_to(&e.subject()) {
+                    if !d.subject().is_identical_to(&e.subject()) || crate::pos::diff(&tree_of(&d.subject()), &tree_of(&e.subject())).is_some() {
                         ctx.violation("listed/wrong-subject", &format!("recipient ({}) decrypted something other than the original subject", k.scheme), replay());
                     }
                     if !strip_recipients(&d).is_identical_to(&e) {
